@@ -487,6 +487,20 @@ def py_script(content, flags, script):
                 pos = max(pos, len(content))
         elif it[0] == "z":
             out.append(f"z={len(content)}")
+        elif it[0] == "S":
+            out.append("s=-1")                      # the lseek of File::seek fails: -1, nothing moves
+        elif it[0] in "ZR":
+            k = int(it[1:])
+            failed = k <= 1 or (k == 2 and pos != len(content))
+            if k == 2 and pos != len(content):
+                pos = len(content)                  # moved to the end; the restoring lseek is the one that failed
+            if it[0] == "Z":
+                out.append("z=-1" if failed else f"z={len(content)}")
+            elif failed or (wr and not rd):
+                out.append("r=fail")
+            else:
+                out.append("r=" + hx(content[pos:]))
+                pos = max(pos, len(content))
         elif it[0] == "p":
             n = int(it[1:])
             if wr and not rd:
@@ -610,6 +624,26 @@ def fs_reference(hist, impl):
                 bad = "change/getCurrentDirectory/getAbsolutePath/exists: expected " + want
             elif pth and not pth.startswith("\\") and ref_abs(pth) != "1" and e1 != e2:
                 bad = "getAbsolutePath(p) does not name what p names"
+        if not bad and op == "fsopenf":
+            flags = int(t[2])
+            rr = py_resolve(tree, unhx(t[1]), True)
+            creates = (flags & 2) and not (flags & 8)
+            opens = (rr[0] == "found" and rr[2][0] == "f") or (rr[0] == "missing" and creates)
+            fired = opens and bool(flags & 4)
+            want = dict(tree)
+            if opens:
+                key = rr[1] if rr[0] == "found" else (rr[1] + "/" + rr[2] if rr[1] else rr[2])
+                cont = rr[2][1] if rr[0] == "found" else ""
+                if (flags & 2) and not (flags & 1) and not (flags & 4) and not (flags & 8):
+                    cont = ""
+                want[key] = ("f", cont)
+            if res != f"open={1 if opens and not fired else 0} fired={1 if fired else 0}" or after != want:
+                bad = "File::open with a failing append lseek: wrong answer or world"
+        if not bad and op == "fscdl":
+            rr = py_resolve(tree, unhx(t[1]), True)
+            wd = ([c for c in rr[1].split("/") if c] if rr[0] == "found" and rr[2][0] == "d" else ["s"])
+            if res != "cwd=" + hx("".join("/" + c for c in wd)) or after != tree:
+                bad = "getCurrentDirectory must answer the working directory whatever buffer size getcwd demands"
         if not bad and op == "fsconst" and (res != "tmp=" + hx("/tmp") + " home=1" or after != tree):
             bad = "getTempDirectory/getHomeDirectory"
         if not bad and op in ("fsrmdir", "fsrmdiru"):
@@ -678,7 +712,8 @@ def fs_reference(hist, impl):
         if not bad and op == "fsexists":
             a_ = py_resolve(tree, unhx(t[1]), False)[0] == "found"
             b_ = py_resolve(tree, unhx(t[1]), True)
-            want = f"{1 if a_ else 0} {1 if b_[0] == 'found' and b_[2][0] == 'd' else 0} {1 if b_[0] == 'found' else 0}"
+            isd_ = 1 if b_[0] == 'found' and b_[2][0] == 'd' else 0
+            want = f"{1 if a_ else 0} {isd_} {1 if b_[0] == 'found' else 0} {isd_}"
             if res != want:
                 bad = f"exists/time: expected {want}"
         if not bad and op == "fsreadall":
@@ -772,7 +807,9 @@ def rand_script(rng):
     its = []
     for _ in range(rng.randrange(1, 6)):
         k = rng.random()
-        if k < 0.12:
+        if k < 0.06:
+            its.append(rng.choice(["Z0", "Z1", "Z2", "Z2", "Z3", "R0", "R1", "R2", "R2", "R3", "S0:1", "S1:-1", "S2:0"]))
+        elif k < 0.16:
             its.append(rng.choice(["p0", "p1", "p2", "p3", "p7", "p100", "v", "v", "i", "o", "f"]))
         elif k < 0.45: its.append("w" + hx("".join(rng.choice("abcXYZ") for _ in range(rng.choice([0, 1, 2, 3, 5, 9])))))
         elif k < 0.65: its.append(f"s{rng.choice('012')}:{rng.choice([0, 0, 1, 2, 3, 7, -1, -2, -20])}")
@@ -842,6 +879,10 @@ def fs_random_history(rng, n):
                     qp = fs_path(rng, allow_out_final=True)
                 if rng.random() < 0.05: qp = rng.choice(["", "\\a", "c:/a", "."])
                 h.append(f"fscd {hx(dp)} {hx(qp)}")
+            elif j < 0.88:
+                h.append(f"fsopenf {hx(fs_path(rng, rng.choice(FILEN + ['h', 'a', 'i'])))} {rng.choice([1, 2, 3, 6, 7, 14, 4, 5])}")
+            elif j < 0.95:
+                h.append(f"fscdl {hx(fs_path(rng, rng.choice(DIRN + ['i', 'l', 'zz'])))} {rng.choice([0, 1, 4096, 4097, 8193, 20000, 70000])}")
             else:
                 h.append("fsconst -")
         elif k < 0.85:
@@ -881,7 +922,10 @@ FS_SMALL = [f"fscreate {hx(p)}" for p in ["a", "a/f", "a/f/x", "c/b/a", "a/l", "
            [f"fslsp {hx(p)} {hx(pt)} {d} {m}" for p, pt in [("a", ""), ("a", "*"), ("a", "?"), ("a", "l"), ("", "*"), ("", "?"), ("a/l", "x"), ("a/f", "*"), ("a", "F")] for d in "01" for m in "012"] + \
            [f"fsrmdiru {hx(p)} {r} {m}" for p in ["a", "a/b", "a/l", "c"] for r in "01" for m in "12"] + \
            [f"fscd {hx(d)} {hx(q)}" for d, q in [("a", "f"), ("a", "b/g"), ("a/l", "x"), ("i", "f"), ("zz", "a/f"), ("a/f", "a"), ("a/b", "/s/a"), ("a", ""), ("a", "l"), ("", "a"), ("a", "n")]] + \
-           ["fsconst -"] + [f"fsfile {hx('a/f')} {fl} p2,i,o,f,p9,v,s0:0,r,p0" for fl in (1, 2, 3, 7)]
+           ["fsconst -"] + [f"fsopenf {hx(p_)} {fl}" for p_ in ("a/f", "a/h", "a", "zz/h") for fl in (1, 2, 6, 7, 14)] + \
+           [f"fscdl {hx(p_)} {n_}" for p_ in ("a/b", "a/l", "zz") for n_ in (0, 4097, 70000)] + \
+           [f"fsfile {hx('a/f')} {fl} {sc}" for fl in (1, 3, 6) for sc in ("Z0,Z1,Z2,z,r,Z2,Z3", "s0:1,R2,r,s0:1,R0,R3,S0:2,s1:0", "R1,w41,Z2,w42,s0:0,r")] + \
+           [f"fsfile {hx('a/f')} {fl} p2,i,o,f,p9,v,s0:0,r,p0" for fl in (1, 2, 3, 7)]
 
 
 def fs_histories(ctx):
